@@ -819,4 +819,42 @@ def runLeafRace (toks : List String) : String := Id.run do
   let tagS := "|".intercalate (tags.toList.map fun l => "+".intercalate l)
   return s!"tags={tagS} outs={"|".intercalate outs} stray={stray}"
 
+/-! ## racing pushes on one value chain: `racecase <id> threads=<T> per=<P> pre=<K> picks=<t,t,..>`
+
+Thread `t` lends `P` values (serial `100 t + k`, type `k mod 3`) through one shared chain that already holds `K`
+values (serials `1000 + s`). A pick lets the chosen thread perform its pending `try_insert` attempt
+(`Unimock.raceStep` on its current pusher) and run on to its next attempt. -/
+
+def runRaceCase (toks : List String) : String := Id.run do
+  let nT := kvNat toks "threads"
+  let per := kvNat toks "per"
+  let pre := kvNat toks "pre"
+  let picks := parseNatList ((kv toks "picks").getD "")
+  let pushers : List Pusher := (List.range nT).flatMap fun t => (List.range per).map fun k => ({ v := ⟨100 * t + k, k % 3⟩ } : Pusher)
+  let mut st : RaceState := ⟨(List.range pre).map fun s => ⟨1000 + s, 0⟩, pushers⟩
+  let mut started : Array Bool := Array.replicate nT false
+  let mut cur : Array Nat := Array.replicate nT 0          -- index of the push the thread is working on
+  let mut attempts : Array Nat := Array.replicate nT 0
+  let mut stray := 0
+  for t in picks do
+    if t ≥ nT then stray := stray + 1
+    else if !started[t]! then started := started.set! t true
+    else if cur[t]! ≥ per then stray := stray + 1
+    else
+      let idx := t * per + cur[t]!
+      st := raceStep st idx
+      attempts := attempts.set! t (attempts[t]! + 1)
+      match st.pushers[idx]? with
+      | some p => if p.done.isSome then cur := cur.set! t (cur[t]! + 1)
+      | none => pure ()
+  let order := ",".intercalate (st.chain.map fun v => toString v.serial)
+  let unfinished := (List.range nT).filter fun t => cur[t]! < per
+  let refsOk := (List.range (nT * per)).all fun idx =>
+    match st.pushers[idx]? with
+    | some p => match p.done with
+      | some i => st.chain[i]? == some p.v
+      | none => true
+    | none => false
+  return s!"order={order} attempts={",".intercalate (attempts.toList.map toString)} unfinished={unfinished.length} stray={stray} refs={refsOk}"
+
 end Unimock.Driver
